@@ -2419,6 +2419,7 @@ def forward_commits(body, f, facts):
             return u
         return None
     pairs = []          # (member node, local id, statement)
+    scratch = []        # (member node, scratch object id, statement)
     i = end
     while i > 0:
         st = top[i - 1]
@@ -2433,10 +2434,29 @@ def forward_commits(body, f, facts):
             if m is None:
                 m, l = member_of_this(u["args"][0]), local_ref(u.get("recv"))
         if m is None or l is None:
-            break
+            # the other source: the same member of a scratch object of the class itself (`m_x = parsed.m_x;`)
+            src = None
+            if m is not None and isinstance(u, dict):
+                rhs_ = u.get("rhs") if u.get("k") == "Bin" else ((u.get("args") or [None, None])[1] if u.get("k") == "OpCall" else
+                                                                  ((u.get("args") or [None])[0] if u.get("k") == "MCall" else None))
+                r_ = ir.unwrap_all_casts(rhs_) if rhs_ is not None else None
+                while isinstance(r_, dict) and ((r_.get("k") == "Construct" and r_.get("copymove") and len(r_.get("args", [])) == 1) or
+                                                (r_.get("k") == "Call" and ir._is_move(r_) and len(r_.get("args", [])) == 1)):
+                    r_ = ir.unwrap_all_casts(r_["args"][0])
+                if isinstance(r_, dict) and r_.get("k") == "Member" and r_.get("field") and r_.get("n") == m.get("n"):
+                    b_ = ir.unwrap_all_casts(r_.get("base"))
+                    if isinstance(b_, dict) and b_.get("k") == "Ref" and b_.get("d") == "local":
+                        src = b_["id"]
+            if src is None:
+                break
+            scratch.append((m, src, st))
+            i -= 1
+            continue
         pairs.append((m, l["id"], st))
         i -= 1
-    if not pairs or i == 0:
+    if scratch and not pairs and i > 0:
+        return _forward_scratch(body, f, facts, top, i, scratch, tail_rest, member_of_this)
+    if not pairs or i == 0 or scratch:
         return 0
     if len(set(p_[0]["n"] for p_ in pairs)) != len(pairs) or len(set(p_[1] for p_ in pairs)) != len(pairs):
         return 0
@@ -2511,6 +2531,133 @@ def forward_commits(body, f, facts):
         return out
     body["s"] = rep(new_head) + tail_rest
     return len(pairs)
+
+
+def _forward_scratch(body, f, facts, top, i, scratch, tail_rest, member_of_this):
+    """N11, scratch-object form: `T parsed; .. parsed.m_x = ..; ..  m_x = parsed.m_x; m_y = std::move(parsed.m_y);` in a member
+    function of T.  `parsed` is *this after default construction: its declaration becomes the member-wise effect of T's default
+    constructor, `parsed.m` becomes `m`.  Stores to the committed members in front of the commit that nothing reads are
+    dead (the commit overwrites them) and go first."""
+    cls = f.get("cls")
+    pids = set(p_[1] for p_ in scratch)
+    if len(pids) != 1 or len(set(p_[0]["n"] for p_ in scratch)) != len(scratch):
+        return 0
+    pid = next(iter(pids))
+    head = top[:i]
+    decl_j = None
+    for j, st in enumerate(head):
+        if isinstance(st, dict) and st.get("k") == "Decl" and len(st.get("vars", [])) == 1 and st["vars"][0].get("id") == pid:
+            v = st["vars"][0]
+            if v.get("ref") or v.get("static") or (v.get("t") or "").replace("const ", "") != cls:
+                return 0
+            init = unwrap(v.get("init")) if v.get("init") is not None else None
+            if init is not None and not (isinstance(init, dict) and init.get("k") == "Construct" and not init.get("args") and not init.get("copymove")):
+                return 0
+            decl_j = j
+    if decl_j is None:
+        return 0
+    names = {p_[0]["n"]: p_[0] for p_ in scratch}
+    commit_ids = set(id(x) for p_ in scratch for x in walk(p_[2]))
+    # every mention of the scratch object is `parsed.<committed member>`
+    for n, ps in ir.walk_with_parents(body):
+        if id(n) in commit_ids:
+            continue
+        if n.get("k") == "Ref" and n.get("d") == "local" and n.get("id") == pid:
+            chain = list(ps)
+            while chain and chain[-1].get("k") == "Cast":
+                chain.pop()
+            par = chain[-1] if chain else None
+            if not (isinstance(par, dict) and par.get("k") == "Member" and par.get("field") and par.get("n") in names and
+                    ir.unwrap_all_casts(par.get("base")) is n):
+                return 0
+    # dead stores to the committed members of *this in front of the commit
+    def reads_member(n_):
+        return [x for x in walk(n_) if x.get("k") == "Member" and member_of_this(x) is not None and x.get("n") in names]
+    dead = []
+    for j, st in enumerate(head):
+        u = unwrap(st) if isinstance(st, dict) else None
+        tgt = None
+        if isinstance(u, dict) and u.get("k") == "Bin" and u.get("op") == "=" and member_of_this(u.get("lhs")) is not None and is_pure(u.get("rhs"), facts):
+            tgt = member_of_this(u["lhs"])
+        elif isinstance(u, dict) and u.get("k") == "OpCall" and u.get("op") == "=" and len(u.get("args", [])) == 2 and \
+                member_of_this(u["args"][0]) is not None and is_pure(u["args"][1], facts):
+            tgt = member_of_this(u["args"][0])
+        elif isinstance(u, dict) and u.get("k") == "MCall" and ir.callee_name(u) == "clear" and not u.get("args") and member_of_this(u.get("recv")) is not None:
+            tgt = member_of_this(u["recv"])
+        if tgt is not None and tgt.get("n") in names:
+            dead.append((j, tgt))
+    dead_nodes = set(id(x) for j, t_ in dead for x in walk(head[j]))
+    for n in walk(body):
+        if id(n) in commit_ids or id(n) in dead_nodes:
+            continue
+        if n.get("k") == "Member" and member_of_this(n) is not None and n.get("n") in names:
+            return 0            # a real use of the member before the commit
+        if n.get("k") == "MCall" and isinstance(n.get("callee"), dict) and isinstance(ir.unwrap_all_casts(n.get("recv")), dict) and \
+                ir.unwrap_all_casts(n["recv"]).get("k") == "This" and not n["callee"].get("const"):
+            return 0
+    for st in tail_rest:
+        for n in walk(st):
+            if n.get("k") == "Ref" and n.get("d") == "local" and n.get("id") == pid:
+                return 0
+    # the effect of the default constructor, member by member
+    rec = facts.records.get(cls) or {}
+    ctors = [c_ for c_ in list(facts.functions.values()) + list(getattr(facts, "absorbed", {}).values())
+             if c_.get("cls") == cls and c_.get("ctor") and not c_.get("sig")]
+    ctor = ctors[0] if len(ctors) == 1 else None
+    if ctors and ctor is None:
+        return 0
+    if ctor is not None and ir.stmts(ctor.get("body_raw", ctor.get("body"))):
+        return 0                # a constructor body: not expanded here
+    by_member = {i_.get("member"): i_.get("init") for i_ in (ctor.get("inits", []) if ctor else []) or [] if i_.get("member") and i_.get("init") is not None}
+    line = head[decl_j].get("l")
+    init_sts = []
+    for fl in rec.get("fields", []):
+        if fl["n"] not in names:
+            continue            # not committed: the scratch object's copy of it is never looked at (checked above)
+        m = copy.deepcopy(names[fl["n"]])
+        m["l"] = line
+        e = by_member.get(fl["n"], fl.get("init"))
+        t = (fl.get("t") or "").replace("const ", "")
+        if e is None:
+            if t.startswith(("std::vector<", "std::deque<", "std::basic_string<", "std::unordered_map<", "std::map<", "std::set<", "std::list<")):
+                init_sts.append({"k": "MCall", "l": line, "t": "void", "args": [], "recv": m,
+                                 "callee": {"qn": t + "::clear", "cls": t, "sig": [], "inrepo": False, "ret": "void", "access": 0}})
+                continue
+            if "optional<" in t:
+                e = {"k": "Construct", "args": [], "t": t, "l": line}
+            else:
+                return 0
+        init_sts.append({"k": "Bin", "op": "=", "l": line, "t": fl.get("t"), "lhs": m, "rhs": copy.deepcopy(e)})
+    dead_js = set(j for j, t_ in dead)
+    new_head = []
+    for j, st in enumerate(head):
+        if j in dead_js:
+            continue
+        if j == decl_j:
+            new_head.extend(init_sts)
+        else:
+            new_head.append(st)
+
+    def rep(n):
+        if isinstance(n, list):
+            return [rep(x) for x in n]
+        if not isinstance(n, dict):
+            return n
+        if n.get("k") == "Member" and n.get("field") and n.get("n") in names:
+            b_ = ir.unwrap_all_casts(n.get("base"))
+            if isinstance(b_, dict) and b_.get("k") == "Ref" and b_.get("d") == "local" and b_.get("id") == pid:
+                m = copy.deepcopy(names[n["n"]])
+                m["l"] = n.get("l")
+                return m
+        out = {}
+        for kk, vv in n.items():
+            if kk == "captures" and isinstance(vv, list):
+                out[kk] = [c for c in vv if not (isinstance(c, dict) and c.get("id") == pid)]
+            else:
+                out[kk] = rep(vv) if isinstance(vv, (dict, list)) else vv
+        return out
+    body["s"] = rep(new_head) + tail_rest
+    return len(scratch)
 
 
 _SROA_COUNTER = [300000]
